@@ -4,15 +4,14 @@
 The value-level model (`Model/Seq.lean`) reads the source before it updates the destination, so it
 cannot exhibit an ordering defect between the two when they are the same object.  This file models
 just that one function over an explicit heap (blocks of cells, object records `{ptr, size, cap}` in a
-table, so `src` may be the destination), once with the statement order of the current tree
-(`appendShipped`) and once with the order of `notes/fix-array-self-append.diff` (`appendPatched`), in
+table, so `src` may be the destination), once with the statement order the tree had before commit 5f6da32
+(`appendShipped`) and once with the order of that commit (`appendPatched`, the current code), in
 checked semantics (`Except Fault`).
 
-What is proved here is by kernel evaluation on concrete worlds (labelled tests, `decide`): the shipped
-order writes past the block on `a += a` with an exact-fit block, over-copies inside spare capacity, and
-is correct for distinct objects; the patched order gives `l ++ l`.  The general statement for the
-patched order is kept as `PatchedSelfAppend : Prop` (not proved — the loop invariant over the heap was
-not done); the `_partial` theorems are its instances.
+Proved for every list and capacity: `patched_self_append : PatchedSelfAppend` (loop invariant
+`copyLoop_self` over the heap).  By kernel evaluation on concrete worlds (labelled tests, `decide`,
+names ending `_partial`): the old order writes past the block on `a += a` with an exact-fit block,
+over-copies inside spare capacity, and is correct for distinct objects.
 -/
 namespace Qentem.SeqAlias
 
@@ -108,7 +107,7 @@ def copyLoop (w : World) (dst src : Option Nat) : Nat → Nat → Nat → Except
     let w' ← writeCell w dst j v
     copyLoop w' dst src k (i + 1) (j + 1)
 
-/-- The function as it is in the tree now (after ea6fc6e): `src.Size()` is read three times; the third
+/-- The function as it was between ea6fc6e and 5f6da32: `src.Size()` is read three times; the third
 read comes after `index_ += …`. -/
 def appendShipped (w : World) (r s : Nat) : Except Fault World := do
   let d ← getObj w r
@@ -122,7 +121,7 @@ def appendShipped (w : World) (r s : Nat) : Except Fault World := do
   let s2 ← getObj w2 s                                    -- src.First(), src.Size() read again
   copyLoop w2 d1.ptr s2.ptr s2.size 0 off
 
-/-- The order of `notes/fix-array-self-append.diff`: `src.Size()` is read once, before anything moves. -/
+/-- The current code (5f6da32): `src.Size()` is read once, before anything moves. -/
 def appendPatched (w : World) (r s : Nat) : Except Fault World := do
   let d ← getObj w r
   let sr ← getObj w s
@@ -167,7 +166,7 @@ def world (l : List Nat) (cap : Nat) (m : List Nat) : World :=
 def outcome (r : Except Fault World) (obj : Nat) : Except Fault (Option (List Nat) × Nat) :=
   r.map fun w => (content w obj, strayCells w obj)
 
-/-- The full-strength statement for the repaired function (stated, not proved in general). -/
+/-- The full-strength statement for the repaired function (proved below: `patched_self_append`). -/
 def PatchedSelfAppend : Prop :=
   ∀ (l : List Nat) (cap : Nat), l.length ≤ cap →
     outcome (appendPatched (world l cap []) 0 0) 0 = .ok (some (l ++ l), 0)
@@ -193,5 +192,114 @@ theorem patched_self_append_partial :
     outcome (appendPatched (world [1, 2] 8 []) 0 0) 0 = .ok (some [1, 2, 1, 2], 0) ∧
     outcome (appendPatched (world [] 0 []) 0 0) 0 = .ok (some [], 0) ∧
     outcome (appendPatched (world [1, 2] 2 [3, 4]) 0 1) 0 = .ok (some [1, 2, 3, 4], 0) := by decide
+
+/-! ### The general statement -/
+
+theorem set_same_of_get {α : Type} (l : List α) (b : Nat) (x : α) (h : l[b]? = some x) : l.set b x = l := by
+  have hb : b < l.length := by
+    rcases Nat.lt_or_ge b l.length with h1 | h1
+    · exact h1
+    · rw [List.getElem?_eq_none h1] at h; simp at h
+  rw [List.getElem?_eq_getElem hb] at h
+  injection h with h
+  rw [← h]; exact List.set_getElem_self hb
+
+theorem copyLoop_self (l : List Nat) (b : Nat) : ∀ (k i m : Nat) (w : World), i + k = l.length → k ≤ m →
+    w.heap[b]? = some (some (l.map some ++ (l.take i).map some ++ List.replicate m none)) →
+    ∃ w', copyLoop w (some b) (some b) k i (l.length + i) = .ok w' ∧ w'.objs = w.objs ∧
+      w'.heap = w.heap.set b (some (l.map some ++ l.map some ++ List.replicate (m - k) none)) := by
+  intro k
+  induction k with
+  | zero =>
+    intro i m w hik _ hb
+    have : i = l.length := by omega
+    subst this
+    refine ⟨w, rfl, rfl, ?_⟩
+    rw [List.take_length] at hb
+    simp only [Nat.sub_zero]
+    exact (set_same_of_get _ _ _ hb).symm
+  | succ k ih =>
+    intro i m w hik hkm hb
+    have hi : i < l.length := by omega
+    have hbl : b < w.heap.length := by
+      rcases Nat.lt_or_ge b w.heap.length with h1 | h1
+      · exact h1
+      · rw [List.getElem?_eq_none h1] at hb; simp at hb
+    obtain ⟨m', rfl⟩ : ∃ m', m = m' + 1 := ⟨m - 1, by omega⟩
+    have hread : readCell w (some b) i = .ok l[i] := by
+      simp only [readCell, hb]
+      rw [List.append_assoc, List.getElem?_append_left (by simp; exact hi)]
+      simp [hi]
+    let cells := l.map some ++ (l.take i).map some ++ List.replicate (m' + 1) (none : Option Nat)
+    have hlen : l.length + i < cells.length := by simp [cells]; omega
+    have hset : cells.set (l.length + i) (some l[i]) =
+        l.map some ++ (l.take (i + 1)).map some ++ List.replicate m' none := by
+      have h1 : (l.map some ++ (l.take i).map some).length = l.length + i := by simp; omega
+      simp only [cells]
+      rw [List.set_append_right _ _ (by omega), h1, Nat.sub_self, List.replicate_succ, List.set_cons_zero]
+      have e : (l.take (i + 1)).map some = (l.take i).map some ++ [some l[i]] := by
+        rw [List.take_succ_eq_append_getElem hi, List.map_append]; rfl
+      rw [e]; simp only [List.append_assoc, List.cons_append, List.nil_append]
+    have hwrite : writeCell w (some b) (l.length + i) l[i] =
+        .ok { w with heap := w.heap.set b (some (l.map some ++ (l.take (i + 1)).map some ++ List.replicate m' none)) } := by
+      simp only [writeCell, hb]
+      rw [if_pos hlen, hset]
+    obtain ⟨w', h1, h2, h3⟩ := ih (i + 1) m'
+      { w with heap := w.heap.set b (some (l.map some ++ (l.take (i + 1)).map some ++ List.replicate m' none)) }
+      (by omega) (by omega) (by simp [hbl])
+    refine ⟨w', ?_, by simpa using h2, ?_⟩
+    · simp only [copyLoop, hread, bind, Except.bind, hwrite]
+      exact h1
+    · rw [h3]; simp [List.set_set]
+
+theorem mapM_id_some (l : List Nat) : (l.map some).mapM id = some l := by
+  induction l with
+  | nil => rfl
+  | cons a t ih => simp [List.mapM_cons, ih]
+
+/-- What `outcome` reports for object 0 once its block holds `l ++ l` followed by unconstructed cells. -/
+theorem outcome_done (l : List Nat) (w : World) (b cap m : Nat) (o1 : Obj)
+    (hobjs : w.objs = [⟨some b, l.length + l.length, cap⟩, o1])
+    (hheap : w.heap[b]? = some (some (l.map some ++ l.map some ++ List.replicate m none))) :
+    outcome (.ok w) 0 = .ok (some (l ++ l), 0) := by
+  have e1 : (l.map some ++ l.map some ++ List.replicate m (none : Option Nat)).take (l.length + l.length) = (l ++ l).map some := by
+    rw [List.take_left' (by simp)]; simp
+  have e2 : (l.map some ++ l.map some ++ List.replicate m (none : Option Nat)).drop (l.length + l.length) = List.replicate m none := by
+    rw [List.drop_left' (by simp)]
+  simp only [outcome, Except.map, content, strayCells, hobjs, List.getElem?_cons_zero, hheap, e1, e2, mapM_id_some]
+  have e3 : l.length + l.length ≤ (l.map some ++ l.map some ++ List.replicate m (none : Option Nat)).length := by simp
+  rw [if_pos e3]
+  simp
+
+/-- **`a += a` at heap level, for every content and capacity**: the current statement order never faults,
+leaves `l ++ l` in the object and no constructed cell beyond `size` — across a reallocation and in place. -/
+theorem patched_self_append : PatchedSelfAppend := by
+  intro l cap hcap
+  by_cases hg : l.length + l.length > cap
+  · -- reallocation: new block 2, old block 0 released
+    have hn : l.length ≠ 0 := by omega
+    have hloop := copyLoop_self l 2 l.length 0 l.length
+      { objs := [⟨some 2, l.length + l.length, l.length + l.length⟩, ⟨some 1, 0, 0⟩],
+        heap := [none, some [], some (l.map some ++ List.replicate l.length none)] }
+      (by omega) (by omega) (by simp)
+    obtain ⟨w', h1, h2, h3⟩ := hloop
+    have hrun : appendPatched (world l cap []) 0 0 = .ok w' := by
+      simp only [Nat.add_zero] at h1
+      rw [← h1]
+      simp [appendPatched, getObj, world, hg, bind, Except.bind, pure, Except.pure, setObj, resize, alloc, rawCopy, hn, free]
+    rw [hrun]
+    exact outcome_done l w' 2 (l.length + l.length) (l.length - l.length) _ h2 (by rw [h3]; simp)
+  · -- in place
+    have hloop := copyLoop_self l 0 l.length 0 (cap - l.length)
+      { objs := [⟨some 0, l.length + l.length, cap⟩, ⟨some 1, 0, 0⟩],
+        heap := [some (l.map some ++ List.replicate (cap - l.length) none), some []] }
+      (by omega) (by omega) (by simp)
+    obtain ⟨w', h1, h2, h3⟩ := hloop
+    have hrun : appendPatched (world l cap []) 0 0 = .ok w' := by
+      simp only [Nat.add_zero] at h1
+      rw [← h1]
+      simp [appendPatched, getObj, world, hg, bind, Except.bind, pure, Except.pure, setObj]
+    rw [hrun]
+    exact outcome_done l w' 0 cap (cap - l.length - l.length) _ h2 (by rw [h3]; simp)
 
 end Qentem.SeqAlias
